@@ -41,6 +41,7 @@ func init() {
 			{ID: "C12.20", Desc: "the scanner yields a directive whatever its argument", Run: func(c *Ctx) { ruleScannerYieldsWhateverTheArgument(c, "C12.20") }, MinSites: 1},
 			{ID: "C12.21", Desc: "an out-of-range number acts as the greatest representable value", Run: func(c *Ctx) { ruleOverflowSaturatesAtTheBound(c, "C12.21") }, MinSites: 1},
 			{ID: "C12.22", Desc: "empty list elements are ignored where a request Cache-Control selects a variant", Run: func(c *Ctx) { ruleListValuesThroughTheSplitter(c, "C12.22") }, MinSites: 1},
+			{ID: "C12.23", Desc: "a delta-seconds value parsed as unsigned is bounded before it is converted to a signed type (2^63 and above do not wrap)", Run: func(c *Ctx) { ruleUnsignedParseClampedBeforeConversion(c, "C12.23") }, MinSites: 1},
 		},
 	})
 }
